@@ -77,6 +77,10 @@ var proxyDevs = []wireDev{
 	{Name: "connect-closed", Close: true, Failure: true},
 	{Name: "connect-200-extra-data", Bytes: "HTTP/1.1 200 OK\r\n\r\nHTTP/1.1 200 OK\r\nContent-Length: 2\r\n\r\nok", Close: true, Failure: true},
 	{Name: "connect-204", Bytes: "HTTP/1.1 204 No Content\r\n\r\n", Close: true, Failure: true},
+	// the proxy refuses and its explanation never ends while the connection stays open
+	{Name: "connect-403-endless-body", Bytes: "HTTP/1.1 403 Forbidden\r\nContent-Length: 100\r\n\r\nshort", Failure: true},
+	{Name: "connect-502-unterminated-chunks", Bytes: "HTTP/1.1 502 Bad Gateway\r\nTransfer-Encoding: chunked\r\n\r\n5\r\nabcde\r\n", Failure: true},
+	{Name: "connect-407-no-length-no-close", Bytes: "HTTP/1.1 407 Proxy Authentication Required\r\nProxy-Authenticate: Basic\r\n\r\nplease", Failure: true},
 }
 
 type wireCell struct {
